@@ -509,6 +509,7 @@ type runState struct {
 	orphans      []string           // context state of scope objects whose creation failed
 	buildCancel  context.CancelFunc // set while a Build started with a cancellable context is in progress
 	storm        bool               // contention scenario: closes are only counted
+	chaos        bool               // free-running program with random delays at the gates
 	closeWaits   bool               // instance Close waits for overlapping resolutions on its scope (free-running programs)
 	instScope    map[int]string     // instance id -> scope it was constructed for
 	creating     map[int64]string
